@@ -112,11 +112,17 @@ def main(argv):
             res = mod.run(tier, seed)
         except _Stuck:
             frames = [l for l in traceback.format_exc().split("\n") if "/mingus/" in l or "drivers/" in l]
-            res = {"property": pid, "evaluations": 0, "distinct_nontrivial": 0, "rule": "stopped after %d s" % limit,
-                   "groups": {}, "samples": [], "known": [], "assumptions": [], "exhaustive": False,
-                   "failures": [{"function": "driver %s" % pid, "clause": "terminates",
-                                 "what": "the driver did not finish within %d s (a call into the library does not return?)" % limit,
-                                 "inputs": " | ".join(x.strip() for x in frames[-8:])[:2000]}]}
+            stuck = {"function": "driver %s" % pid, "clause": "terminates",
+                     "what": "the driver did not finish within %d s (a call into the library does not return?)" % limit,
+                     "inputs": " | ".join(x.strip() for x in frames[-8:])[:2000]}
+            from bounded import drv
+            cur = getattr(drv.Recorder, "current", None)
+            if cur is not None:
+                res = cur.result("stopped after %d s" % limit)
+                res["failures"] = list(res.get("failures") or []) + [stuck]
+            else:
+                res = {"property": pid, "evaluations": 0, "distinct_nontrivial": 0, "rule": "stopped after %d s" % limit,
+                       "groups": {}, "samples": [], "known": [], "assumptions": [], "exhaustive": False, "failures": [stuck]}
         except Exception:
             res = {"property": pid, "error": traceback.format_exc()}
         finally:
